@@ -30,7 +30,7 @@ def gen_case(rng, fit=True):
                 break
         total += size
         srcs.append({"arg": gen_source_path(rng, used), "content": spec})
-    arch = rng.choice(["t.k7", "t.k7", "o+/t.k7", "./t.k7", "ABS/t.k7", "o+.d/x.K7", "noext"])
+    arch = rng.choice(["t.k7", "t.k7", "o+/t.k7", "./t.k7", "ABS/t.k7", "o+.d/x.K7", "noext", "o+/../t.k7", "../up+/t.k7", "ABS/../abs2/t.k7"])
     return {"sources": srcs, "verbose": rng.random() < 0.4, "archive": arch}
 
 
@@ -95,6 +95,11 @@ def setup(case, cd):
     arch = arch_path(case, cd)
     d = os.path.dirname(os.path.normpath(os.path.join(cd.cwd, arch)))
     os.makedirs(d, exist_ok=True)
+    # every directory named on the way must exist too (x/../y needs x)
+    parts = os.path.join(cd.cwd, arch).split(os.sep)
+    for k in range(1, len(parts)):
+        if parts[k] == "..":
+            os.makedirs(os.sep.join(parts[:k]), exist_ok=True)
     return fs, contents, arch
 
 
